@@ -404,9 +404,12 @@ func (l *log) delete(offsets map[int64]struct{}) ([]Message, int64, error) {
 	vhook.Pause("delete.found")
 
 	wasWriter := false
+	var writerVersion message.Version
 	l.writerMu.Lock()
 	if l.writer.reader == rdr {
 		wasWriter = true
+		// read under the lock: a concurrent Publish may replace l.writer on rollover
+		writerVersion = l.writer.messages.Version()
 		if err := l.writer.Sync(); err != nil {
 			l.writerMu.Unlock()
 			return nil, 0, err
@@ -420,7 +423,7 @@ func (l *log) delete(offsets map[int64]struct{}) ([]Message, int64, error) {
 	if l.opts.Version.KeepRewriteVersion {
 		var detected message.Version
 		if wasWriter {
-			detected = l.writer.messages.Version()
+			detected = writerVersion
 		} else {
 			mr, err := message.OpenReader(rdr.segment.Log, rdr.segment.Offset)
 			if err != nil {
